@@ -239,17 +239,35 @@ func VerifC02bare() {
 	switch ndConcrete(verifChoice("strip", 3)) {
 	case 0:
 		delete(bare.message.Headers.Protected, cose.HeaderLabelAlgorithm)
-		if ndSymbolic() && ndBool("oracle.signature.over.empty.protected.header") {
+		if ndBool("oracle.signature.over.empty.protected.header") {
 			// the signer's key has also signed (outside this library) a Sig_structure with an
 			// EMPTY protected header over this payload: that signature must still not make a
 			// message without a protected algorithm verify
 			bare.message.Headers.RawProtected = []byte{}
-			sig := ndBytes("oracle.sig")
-			ndAssume(len(sig) > 0)
-			idx := len(verifCose.tbs)
-			verifCose.tbs = append(verifCose.tbs, verifTBSRec{hasAlg: false, rawProt: []byte{}, ext: []byte(""), payload: bare.message.Payload})
-			verifCose.sigs = append(verifCose.sigs, verifSigRec{key: 0, alg: alg, tbs: idx, sig: sig})
-			bare.message.Signature = sig
+			if ndSymbolic() {
+				sig := ndBytes("oracle.sig")
+				ndAssume(len(sig) > 0)
+				idx := len(verifCose.tbs)
+				verifCose.tbs = append(verifCose.tbs, verifTBSRec{hasAlg: false, rawProt: []byte{}, ext: []byte(""), payload: bare.message.Payload})
+				verifCose.sigs = append(verifCose.sigs, verifSigRec{key: 0, alg: alg, tbs: idx, sig: sig})
+				bare.message.Signature = sig
+			} else {
+				// natively: really sign ["Signature1", h'', h'', payload] with the signer's key
+				if bare.message.Payload == nil {
+					bare.message.Payload = []byte{0xa0}
+				}
+				tbs := []byte{0x84, 0x6a}
+				tbs = append(tbs, "Signature1"...)
+				tbs = append(tbs, 0x40, 0x40)
+				tbs = append(tbs, verifCBORBstr(bare.message.Payload)...)
+				sig, err := w.signerAlg(0, alg, 0).Sign(rand.Reader, tbs)
+				if err != nil {
+					panic(verifAbort{"oracle signature"})
+				}
+				bare.message.Signature = sig
+				bare.message.Headers.RawProtected = []byte{0x40}
+				bare.message.Headers.Unprotected[cose.HeaderLabelAlgorithm] = alg
+			}
 		}
 	case 1:
 		bare.message.Payload = nil
